@@ -247,7 +247,8 @@ theorem newDT_shapeW : ∀ (dt : DataType) (path : String) (n : Bool) (md : Meta
       simp only [Shape]
       exact ⟨isSome_newValidity n, cname, cdt, cn, cmd, by rw [Int.toNat_of_nonneg (by omega)], this⟩
   | .map (.mk _ (.struct (.cons _ (.cons _ (.cons _ _)))) _ _) _, _, _, _, _, _, h => by simp [newDT, fail] at h
-  | .map (.mk ename (.struct (.cons (.mk kn kdt knl kmd) (.cons (.mk vn vdt vnl vmd) .nil))) en emd) sorted, path, n, md, b, hc, h => by
+  | .map (.mk _ (.struct (.cons _ (.cons _ .nil))) true _) _, _, _, _, _, _, h => by simp [newDT, ctx_ok, fail] at h
+  | .map (.mk ename (.struct (.cons (.mk kn kdt knl kmd) (.cons (.mk vn vdt vnl vmd) .nil))) false emd) sorted, path, n, md, b, hc, h => by
     simp only [newDT] at h
     obtain ⟨kb, h1, h⟩ := (bind_ok _ _ _).1 h
     obtain ⟨vb, h2, h⟩ := (bind_ok _ _ _).1 h
@@ -258,7 +259,7 @@ theorem newDT_shapeW : ∀ (dt : DataType) (path : String) (n : Bool) (md : Meta
     have hk := newDT_shapeW kdt _ knl kmd kb hc'.1 h1
     have hv := newDT_shapeW vdt _ vnl vmd vb hc'.2.1 h2
     simp only [Shape]
-    exact ⟨isSome_newValidity n, ename, kn, kdt, knl, kmd, vn, vdt, vnl, vmd, .nil, en, emd, sorted, rfl, hk, hv⟩
+    exact ⟨isSome_newValidity n, ename, kn, kdt, knl, kmd, vn, vdt, vnl, vmd, .nil, false, emd, sorted, rfl, hk, hv⟩
   | .map (.mk _ (.struct .nil) _ _) _, _, _, _, _, _, h => by simp [newDT, fail] at h
   | .map (.mk _ (.struct (.cons _ .nil)) _ _) _, _, _, _, _, _, h => by simp [newDT, fail] at h
   | .map (.mk _ .null _ _) _, _, _, _, _, _, h => by simp [newDT, fail] at h
@@ -320,13 +321,14 @@ theorem newDT_shapeW : ∀ (dt : DataType) (path : String) (n : Bool) (md : Meta
     refine ⟨⟨k, v, rfl, hsv⟩, ?_, ?_, dictVal_of_shape hsv hc.1⟩
     · cases k <;> simp [isIntDT] at hik <;> (simp only [newDT] at h1; cases h1; rfl)
     · cases k <;> simp [isIntDT] at hik <;> (simp only [newDT] at h1; cases h1; exact isSome_newValidity n)
-  | .union ufs mode, path, n, md, b, hc, h => by
+  | .union _ .sparse, _, _, _, _, _, h => by simp [newDT, ctx_ok, fail] at h
+  | .union ufs .dense, path, n, md, b, hc, h => by
     simp only [newDT] at h
     obtain ⟨bl, h1, h⟩ := (bind_ok _ _ _).1 h
     cases h
     have := newUnionFields_shapeW ufs path 0 bl (by simpa [coveredW] using hc) h1
     simp only [Shape]
-    exact ⟨ufs, mode, rfl, this⟩
+    exact ⟨ufs, .dense, rfl, this⟩
   | .interval _, _, _, _, _, _, h => by simp [newDT, fail] at h
   | .runEndEncoded _ _, _, _, _, _, _, h => by simp [newDT, fail] at h
 theorem newFields_shapeW : ∀ (fs : Fields) (path : String) (bl : BL), coveredWFs fs = true →
